@@ -12,13 +12,15 @@ def run(tier: str, seed: int) -> Report:
     rep.exhaustive = True
     rep.rule = (
         "cases = (use site, probe string, dialect): ALL %d strings of length <= %d over the alphabet %r x %d use sites (%s) x 5 dialect models, "
-        "each generated with annotate=True and annotate=False. Identifier sites are not applicable (counted, not nontrivial) for the empty string and for "
+        "each generated with annotate=True and annotate=False; in addition %d SQL keywords / niladic functions (null, true, current_date, group, order, select, ... "
+        "lower and UPPER case) as names at every identifier site (column as rename source / target, map source, select, drop survivor, order key, expression operand, "
+        "aggregate argument, partition key, join key, group key, new extend column, table name, concat id column, record control columns). Identifier sites are not applicable (counted, not nontrivial) for the empty string and for "
         "strings containing the dialect's identifier quote character. SQLiteModel: the query is executed on sqlite3 (tables created with the harness' own "
         "quoting) and the table read back must equal the expected one exactly (names and values). PostgreSQLModel: its text is executed on sqlite3 whenever "
         "the query for the neutral string 'a' runs there and returns the right table, else tokenised. MySQLModel / SparkSQLModel / BigQueryModel: tokenised "
         "with cbc.oracles_c.lex_sql; the token kinds must equal those of the neutral query and the differing tokens must be string / identifier tokens "
         "decoding to the probe. NONTRIVIAL iff SQL for the neutral string exists and the probe's SQL was executed or tokenised and compared."
-        % (n, sc["max_len"], "".join(c14.ALPHABET), len(c14.SITES), ", ".join(c14.SITES.keys()))
+        % (n, sc["max_len"], "".join(c14.ALPHABET), len(c14.SITES), ", ".join(c14.SITES.keys()), len(c14.keyword_probes()))
     )
     rep.bounded_label = "bounded: all %d strings of length <= %d over the 12-character alphabet x %d use sites x 5 dialects x annotate on/off" % (n, sc["max_len"], len(c14.SITES))
     rep.assumptions = [
